@@ -25,6 +25,7 @@ import (
 	"go/ast"
 	"go/token"
 	"go/types"
+	"os"
 	"sort"
 	"strings"
 )
@@ -55,6 +56,7 @@ type normalizer struct {
 	counter int
 	notes   []string
 	inlined map[string]int
+	dropped map[string]bool
 }
 
 // normalizeProgram returns the program the rules are run on and notes for the
@@ -70,7 +72,10 @@ func normalizeProgram(p0 *Program) (*Program, []string) {
 		nz.p = cur
 		edits := nz.collect()
 		if len(edits) == 0 {
-			break
+			edits = nz.dropInlinedHelpers()
+			if len(edits) == 0 {
+				break
+			}
 		}
 		next := map[string][]byte{}
 		for k, v := range overlay {
@@ -282,10 +287,25 @@ func isPureExpr(info *types.Info, e ast.Expr) bool {
 	return false
 }
 
-func (nz *normalizer) candidate(fn *types.Func) *helper {
+var normDebug = os.Getenv("SUNLINT_DEBUG_NORM") != ""
+
+func dbg(format string, a ...any) {
+	if normDebug {
+		fmt.Fprintf(os.Stderr, "norm: "+format+"\n", a...)
+	}
+}
+
+func (nz *normalizer) candidate(fn *types.Func) (res *helper) {
 	if fn == nil || fn.Pkg() == nil {
 		return nil
 	}
+	defer func() {
+		if res == nil {
+			if _, known := frozenParams[fn.Origin().FullName()]; !known && nz.p.Pkgs[fn.Pkg().Path()] != nil {
+				dbg("not a candidate: %s", fn.FullName())
+			}
+		}
+	}()
 	fn = fn.Origin()
 	if _, known := frozenParams[fn.FullName()]; known {
 		return nil
@@ -653,9 +673,75 @@ func (fc *fileCtx) sameBinding(h *helper, at token.Pos) bool {
 				ok = false
 			}
 		default:
-			if o.Parent() == o.Pkg().Scope() || o.Parent() == types.Universe {
+			pkgLevel := o.Pkg() != nil && o.Pkg() == h.fn.Pkg() && o.Parent() == o.Pkg().Scope()
+			universe := o.Pkg() == nil && o.Parent() == types.Universe
+			if pkgLevel || universe {
 				if _, got := scope.LookupParent(id.Name, at); got != o {
 					ok = false
+				}
+			}
+		}
+		return ok
+	})
+	return ok
+}
+
+// substitutable: the argument can stand textually for the parameter at every
+// use - it is an identifier, a selector chain over one, or a literal; the helper
+// never assigns to the parameter or takes its address; and no variable declared
+// in the helper carries the name of an identifier the argument mentions.
+func (fc *fileCtx) substitutable(h *helper, param types.Object, arg ast.Expr) bool {
+	var roots []string
+	var simple func(e ast.Expr) bool
+	simple = func(e ast.Expr) bool {
+		switch x := e.(type) {
+		case *ast.Ident:
+			roots = append(roots, x.Name)
+			return true
+		case *ast.BasicLit:
+			return true
+		case *ast.SelectorExpr:
+			return simple(x.X)
+		case *ast.ParenExpr:
+			return simple(x.X)
+		}
+		return false
+	}
+	if !simple(arg) {
+		return false
+	}
+	hinfo := h.f.Info()
+	ok := true
+	ast.Inspect(h.f.Decl, func(n ast.Node) bool {
+		switch x := n.(type) {
+		case *ast.AssignStmt:
+			for _, l := range x.Lhs {
+				if o := objOf(hinfo, l); o == param && param != nil {
+					ok = false
+				}
+			}
+		case *ast.IncDecStmt:
+			if o := objOf(hinfo, x.X); o == param && param != nil {
+				ok = false
+			}
+		case *ast.UnaryExpr:
+			if x.Op == token.AND {
+				if o := objOf(hinfo, x.X); o == param && param != nil {
+					ok = false
+				}
+			}
+		case *ast.RangeStmt:
+			for _, e := range []ast.Expr{x.Key, x.Value} {
+				if e != nil && objOf(hinfo, e) == param && param != nil {
+					ok = false
+				}
+			}
+		case *ast.Ident:
+			if d := hinfo.Defs[x]; d != nil && d != param {
+				for _, r := range roots {
+					if r == x.Name && x.Pos() >= h.f.Body.Pos() {
+						ok = false
+					}
 				}
 			}
 		}
@@ -683,6 +769,7 @@ func (fc *fileCtx) plan(h *helper, call *ast.CallExpr, at token.Pos) *inlPlan {
 		}
 	}
 	if hfile == nil || !fc.sameBinding(h, at) {
+		dbg("plan refused for %s: helper file missing or a name it uses is bound differently at the call site", h.f.Name)
 		return nil
 	}
 	pl := &inlPlan{h: h, hfc: &fileCtx{nz: nz, pk: &pkgT{hf.Pkg.TypesInfo, hf.Pkg.Types}, file: hfile, name: htf.Name(), src: hsrc, tf: htf}, rename: map[types.Object]string{}}
@@ -731,8 +818,15 @@ func (fc *fileCtx) plan(h *helper, call *ast.CallExpr, at token.Pos) *inlPlan {
 		}
 		name := ""
 		if ro != nil && used[ro] {
-			name = nz.fresh("r")
-			pl.rename[ro] = name
+			if wantPtr == havePtr && fc.substitutable(h, ro, sel.X) {
+				pl.rename[ro] = recvText
+				name = "-"
+			} else {
+				name = nz.fresh("r")
+				pl.rename[ro] = name
+			}
+		} else if isPureExpr(fc.pk.Info, sel.X) {
+			name = "-"
 		}
 		pl.params = append(pl.params, name)
 		pl.ptypes = append(pl.ptypes, ts)
@@ -756,9 +850,17 @@ func (fc *fileCtx) plan(h *helper, call *ast.CallExpr, at token.Pos) *inlPlan {
 			name := ""
 			if nm != nil {
 				if o := hinfo.Defs[nm]; o != nil && used[o] {
-					name = nz.fresh("p")
-					pl.rename[o] = name
+					if fc.substitutable(h, o, args[i]) {
+						pl.rename[o] = fc.text(args[i].Pos(), args[i].End())
+						name = "-"
+					} else {
+						name = nz.fresh("p")
+						pl.rename[o] = name
+					}
 				}
+			}
+			if name == "" && isPureExpr(fc.pk.Info, args[i]) {
+				name = "-" // unused parameter, nothing to evaluate
 			}
 			pl.params = append(pl.params, name)
 			pl.ptypes = append(pl.ptypes, ts)
@@ -908,6 +1010,9 @@ func (pl *inlPlan) render(a, b token.Pos, label string, named []string, keepRetu
 func (pl *inlPlan) bindings() string {
 	s := ""
 	for i, name := range pl.params {
+		if name == "-" {
+			continue // substituted textually (or pure and unused)
+		}
 		if name == "" {
 			s += "_ = " + pl.bindArgs[i] + "\n"
 		} else {
@@ -1021,4 +1126,48 @@ func (fc *fileCtx) inlineDefer(h *helper, call *ast.CallExpr) (string, bool) {
 	b.WriteString("}()\n}")
 	fc.nz.inlined[h.f.Name]++
 	return b.String(), true
+}
+
+// dropInlinedHelpers removes the declaration of every helper that was inlined
+// and is no longer referenced anywhere in the module: what it did is now part
+// of its callers, and inventories (who-may-call, who-may-write) must not count
+// it twice.
+func (nz *normalizer) dropInlinedHelpers() map[string][]srcEdit {
+	out := map[string][]srcEdit{}
+	p := nz.p
+	if nz.dropped == nil {
+		nz.dropped = map[string]bool{}
+	}
+	for name := range nz.inlined {
+		f := p.Fn(name)
+		if f == nil || f.Decl == nil || f.Obj == nil || nz.dropped[name] {
+			continue
+		}
+		refs := 0
+		for _, pk := range p.All {
+			for _, o := range pk.TypesInfo.Uses {
+				if fn, ok := o.(*types.Func); ok && fn.Origin() == f.Obj {
+					refs++
+				}
+			}
+		}
+		if refs > 0 {
+			continue
+		}
+		// an interface may require the method
+		if f.Decl.Recv != nil && f.Obj.Exported() {
+			continue
+		}
+		tf := p.Fset.File(f.Decl.Pos())
+		if tf == nil {
+			continue
+		}
+		start := f.Decl.Pos()
+		if f.Decl.Doc != nil {
+			start = f.Decl.Doc.Pos()
+		}
+		nz.dropped[name] = true
+		out[tf.Name()] = append(out[tf.Name()], srcEdit{tf.Offset(start), tf.Offset(f.Decl.End()), nz.lineDir(f.Decl.End())})
+	}
+	return out
 }
